@@ -149,7 +149,7 @@ impl Property for C06 {
         "C06"
     }
     fn rule(&self) -> String {
-        "Generated: (language, text, threshold, hint bytes) from the clean and dirty sentence generators, biased so that ordinal forms, the decimal separator and digit words occur next to each other (the shapes that can produce ill-formed texts), plus arbitrary unicode, plus (1 case in 25) English / German decimals of 35-56 dictated fractional digits whose exact value is the midpoint between two adjacent doubles, optionally one digit longer or shorter (the correctly rounded value depends on the last digit). For the occurrences reported (a) through the tokenizer+annotation pipeline and (b) on an own-token stream with random separation / not-a-number hints, the validity predicate of the statement is asserted: span inside the stream, non-empty, strictly increasing and disjoint, first and last token are word tokens, no flagged token inside, text matches DIGITS (MARK DIGITS)? MARKER? with the language's decimal mark and ordinal-marker set (or 1/DIGITS for Spanish), value bit-equal to the numeric reading of the text, is_ordinal <=> marker present; for non-decimal occurrences the digits of the text equal the rendering of the public digit builder that exec_group returns for the span's words (exact digits beyond float precision). Non-trivial = distinct cases with >= 2 occurrences or an occurrence that is ordinal, decimal, has leading zeros or >= 16 digits.".into()
+        "Generated: (language, text, threshold, hint bytes) from the clean and dirty sentence generators, biased so that ordinal forms, the decimal separator and digit words occur next to each other (the shapes that can produce ill-formed texts), plus arbitrary unicode, plus (1 case in 25) English / German decimals of 35-56 dictated fractional digits whose exact value is the midpoint between two adjacent doubles, optionally one digit longer or shorter (the correctly rounded value depends on the last digit). For the occurrences reported (a) through the tokenizer+annotation pipeline (b) on an own-token stream with random separation / not-a-number hints and (c) on the same stream without its whitespace tokens or reduced to its word tokens (a speech recogniser's stream: occurrences can be directly adjacent), the validity predicate of the statement is asserted: span inside the stream, non-empty, strictly increasing and disjoint, first and last token are word tokens, no flagged token inside, text matches DIGITS (MARK DIGITS)? MARKER? with the language's decimal mark and ordinal-marker set (or 1/DIGITS for Spanish), value bit-equal to the numeric reading of the text, is_ordinal <=> marker present; for non-decimal occurrences the digits of the text equal the rendering of the public digit builder that exec_group returns for the span's words (exact digits beyond float precision). Non-trivial = distinct cases with >= 2 occurrences or an occurrence that is ordinal, decimal, has leading zeros or >= 16 digits.".into()
     }
     fn assumptions(&self) -> Vec<String> {
         vec!["the per-language ordinal marker sets are those the library documents/emits today (en st nd rd th ths rds; fr er ère ers ères ème èmes; de '.'; nl e; it º ª; es º ª ᵒˢ ᵃˢ .ᵉʳ; pt º ª ᵒˢ ᵃˢ)".into()]
@@ -201,6 +201,16 @@ impl Property for C06 {
         let o2 = occs(find_numbers(stream.iter(), lg, th));
         let nan2: Vec<bool> = stream.iter().map(|x| x.nan).collect();
         let i2 = wellformed(&c.lang, &texts, &nan2, &o2, obs).map_err(|e| format!("{} (own-token stream of {:?} with hints {:?}, th={}, occurrences {:?})", e, c.text, c.hints, fmt_th(c.th_bits), o2))?;
+        // (c) the same words as a stream without whitespace tokens (hint bytes even) or of word tokens only (odd):
+        // what a speech recogniser hands over; occurrences can then be directly adjacent (end == next start)
+        let words_only = c.hints.first().map_or(false, |h| h & 0x40 != 0);
+        let texts3: Vec<&str> = texts.iter().copied().filter(|x| if words_only { is_word(x) } else { !is_ws(x) }).collect();
+        let mut stream3: Vec<Tk> = texts3.iter().enumerate().map(|(i, x)| Tk::new(i, x)).collect();
+        apply_hints(&mut stream3, &c.hints);
+        let o3 = occs(find_numbers(stream3.iter(), lg, th));
+        let nan3: Vec<bool> = stream3.iter().map(|x| x.nan).collect();
+        wellformed(&c.lang, &texts3, &nan3, &o3, obs).map_err(|e| format!("{} (stream {:?} without whitespace tokens, hints {:?}, th={}, occurrences {:?})", e, texts3, c.hints, fmt_th(c.th_bits), o3))?;
+        obs.label_if(o3.windows(2).any(|w| w[0].end == w[1].start), "adjacent-occurrences(no-gap-stream)");
         obs.label(match o.len() {
             0 => "occurrences=0",
             1 => "occurrences=1",
